@@ -6,7 +6,7 @@ package main
 // Everything goes through the real zap API: logger 0 is zap.New(memLogger.GetCore()); `with k` derives a new
 // logger from logger k with Logger.With (-> MemCore.With -> clone); `log` is Logger.Info (-> Check -> Write).
 //
-//	cap                         logging.BufferSize                                  -> ok 1024
+//	cap                         logging.BufferSize                                  -> ok <BufferSize>
 //	with <k>                    loggers = append(loggers, loggers[k].With(field))   -> ok <index of the new logger>
 //	log <k> <msg>               loggers[k].Info(msg)                                -> ok
 //	logn <k> <count> <start>    loggers[k].Info("m<start>") ... "m<start+count-1>"  -> ok
@@ -555,7 +555,16 @@ func genC20Conc(r *rand.Rand, tier string, idx int) []string {
 		perG = 1 + r.Intn(20)
 	case 1: // total exactly at, one below, one above the capacity
 		perG = 1 + r.Intn(100)
+		if G*perG > c-1 { // small capacities
+			perG = (c - 1) / G
+			if perG < 1 {
+				perG = 1
+			}
+		}
 		pre = c + r.Intn(3) - 1 - G*perG
+		if pre < 0 {
+			pre = 0
+		}
 	default: // far above
 		pre = []int{0, 1, 10, c / 2, c - 1, c, c + 5}[r.Intn(7)]
 		perG = 200 + r.Intn(600)
